@@ -120,6 +120,16 @@ func c05vec(args []string) error {
 				blk.Encrypt(arr[32:48], arr[16:32])
 				blk.Encrypt(arr[0:16], arr[16:32])
 				blk.Decrypt(arr[48:64], arr[16:32])
+				// (and with slices that are LONGER than a block and reach over the other argument's block: only their first
+				// 16 bytes are the operands)
+				arr2 := make([]byte, 64)
+				copy(arr2[0:16], src)
+				blk.Encrypt(arr2[16:32], arr2)       // source open-ended from 0, destination inside it
+				blk.Decrypt(arr2[32:], arr2[0:16:64]) // destination open-ended
+				if !bytes.Equal(arr2[16:32], e) || !bytes.Equal(arr2[32:48], d) || !bytes.Equal(arr2[0:16], src) {
+					got = map[string]interface{}{"error": "another result with open-ended slices of one array"}
+					return
+				}
 				inpl := append(make([]byte, 0, 40), src...)
 				blk.Encrypt(inpl, inpl)
 				if !bytes.Equal(arr[32:48], e) || !bytes.Equal(arr[0:16], e) || !bytes.Equal(arr[48:64], d) || !bytes.Equal(inpl, e) || !bytes.Equal(arr[16:32], src) {
